@@ -24,6 +24,7 @@ META = {
                 'decided obligations)', 'ties in |lambda - sigma|', 'ARPACK/LAPACK internals', 'rounding'],
     'assumptions': ['eig contract A V = B V diag(w); Hermitian pencils have a real spectrum'],
     'tv_per_scenario': {'quick': 1, 'thorough': 1},
+    'replay_random': 16,
     'timeout_ms': {'quick': 120000, 'thorough': 300000},
 }
 
@@ -235,6 +236,17 @@ def als(ctx, shape, cplx, gevp, nprev, solver, number_ev, repeats, perm):
                 den = (x.conj().T @ Bn @ x)[0, 0]
                 if np.allclose(An, An.conj().T):
                     ctx.eq('reported eigenvalue %d == Rayleigh quotient of the returned eigentensor' % k, evs[k], (num / den).real, tol=1e-7)
+        if repeats == 2 and sweeps == 2 and number_ev == 1:
+            # the returned eigentensor is the one recorded WITH the reported eigenvalue (not the iterate of a later, worse sweep)
+            per = len(exp) // sweeps
+            q1 = rec.calls[per - 1]['eigenvalues'][0]
+            q2 = rec.calls[2 * per - 1]['eigenvalues'][0]
+            second_better = bool(abs(q2 - sigma) < abs(q1 - sigma))     # the code's own comparison (already decided on this path)
+            win = rec.calls[2 * per - 1] if second_better else rec.calls[per - 1]
+            ctx.eq('reported eigenvalue is the one of the winning sweep', ev, q2 if second_better else q1)
+            wc = [win['core_after'][:, :, :, :, 0]] + list(win['cores'][1:])
+            ctx.eq('returned eigentensor is the iterate of the sweep whose eigenvalue is reported (best-so-far pair stays together)',
+                   D.as_matrix(ets[0].full(), d), D.as_matrix(D.tt_full(ctx, wc), d))
         ctx.eq('operator unchanged', D.as_matrix(A.full(), d), Ad)
         ctx.eq('initial guess unchanged', x0.full(), x0d)
         for j, p in enumerate(prev):
